@@ -22,6 +22,7 @@ import json
 import multiprocessing as mp
 import os
 import random
+import time
 import warnings
 from pathlib import Path
 
@@ -1576,7 +1577,7 @@ def gen_cases(ctx):
             if m >= 3:
                 cases.append(make_case(rng, m, m, es, nops=rng.randint(3, 12)))
     # random machines up to 10 qudits, circuits 2..8 qudits, machine often larger
-    for _ in range(ctx.n(260, 4000)):
+    for _ in range(ctx.n(220, 4000)):
         m = rng.randint(3, 10)
         n = rng.randint(2, min(8, m))
         es = random_connected_graph(rng, m, rng.choice([0.0, 0.0, 0.1, 0.3]))
@@ -1601,7 +1602,7 @@ def gen_cases(ctx):
         c['edges2'] = [list(e) for e in prefix_connected_graph(rng, m, n, rng.choice([0.0, 0.1]))]
         cases.append(c)
     # permutation-aware mapping (PAM) with exact pre-synthesised triples
-    for _ in range(ctx.n(110, 1500)):
+    for _ in range(ctx.n(90, 1500)):
         cases.append(gen_pam_case(rng))
     # malformed stream: disconnected machine, machine too small
     for _ in range(ctx.n(45, 500)):
@@ -1839,6 +1840,7 @@ def run(ctx: vf.Ctx):
         for f in sorted(cdir.glob('*.json')):
             corpus.append(json.loads(f.read_text())['case'])
     cases = corpus + gen_cases(ctx)
+    t_h = time.time()
     results = evaluate_all(cases)
     agg = {}
     failing = []
@@ -1861,6 +1863,8 @@ def run(ctx: vf.Ctx):
             ctx.count('qutrit')
         if case.get('variant') == 'double':
             ctx.count('double_routing')
+        if case.get('kind') == 'pam':
+            ctx.count('pam:seq=%s:mode=%s' % (case['seq'], case['mode']))
         if res['error'] is not None:
             ctx.count('impl_raised:' + res['error'][0] + ':' + res['error'][1])
         for k, v in st.items():
@@ -1873,7 +1877,10 @@ def run(ctx: vf.Ctx):
         elif nontrivial and st.get('B'):
             ctx.sample(dict(n=case['n'], m=case['m'], edges=case['edges'], ops=case['ops'][:6], steps=st.get('steps'),
                             backtracks=st.get('B')), limit=3)
-    ctx.cov['model_steps_replayed'] = dict(Exec=agg.get('E', 0), Swap=agg.get('S', 0), Backtrack=agg.get('B', 0), Uphill=agg.get('U', 0))
+    ctx.cov['model_steps_replayed'] = dict(Exec=agg.get('E', 0), Swap=agg.get('S', 0), Backtrack=agg.get('B', 0), Uphill=agg.get('U', 0),
+                                           PamExec=agg.get('P', 0), PamExec_nonidentity_perm=agg.get('P_nonid', 0), PamBarrier=agg.get('PB', 0))
+    ctx.cov['pam_cases'] = agg.get('pam', 0)
+    ctx.cov['harness_seconds'] = round(time.time() - t_h, 1)
     ctx.cov['passes_replayed'] = agg.get('passes', 0)
     ctx.cov['cases_with_nonidentity_placement'] = agg.get('placement_nonid', 0)
     ctx.cov['cases_with_final_ne_initial_mapping'] = agg.get('fmap_ne_imap', 0)
